@@ -17,9 +17,10 @@
 -/
 import SalsaVerif.Gen.Stamp
 import SalsaVerif.Model.Cycle
+import SalsaVerif.Proofs.Cycle
 
 namespace SalsaVerif.Props.C15
-open SalsaVerif.Gen.Stamp SalsaVerif.Model.Cycle
+open SalsaVerif.Gen.Stamp SalsaVerif.Model.Cycle SalsaVerif.Proofs.Cycle
 
 private theorem iter_eq (s : Nat) : IterationStamp.iteration s = s % 256 := by
   simp [IterationStamp.iteration]
@@ -82,11 +83,6 @@ theorem stamp_initial (c : Nat) (hc : c < 256) :
 
 example : IterationStamp.initial 5 = 1280 := by decide
 
-/-- stamps reachable from `initial c` by `k` successful increments. -/
-def incrN : Nat → Nat → Option Nat
-  | 0, s => some s
-  | k + 1, s => (IterationStamp.increment_iteration s).bind (incrN k)
-
 /-- every stamp reachable from `initial c` has iteration = number of increments ≤ 200 and
     the cancellation byte of `c`: `increment_iteration` never carries. -/
 theorem stamp_reachable_le (c : Nat) (hc : c < 256) (k s : Nat)
@@ -124,51 +120,6 @@ example : incrN 200 (IterationStamp.initial 3) = some (3 * 256 + 200) := by deci
 example : incrN 201 (IterationStamp.initial 3) = none := by decide
 
 /-! ## the head loop (`Model.Cycle.executeMaybeIterate`) -/
-
-/-- an error of the query function comes out of a fetch. -/
-theorem evalM_error (env : Nat → Nat) (read : Nat → St → Res Fetched) :
-    ∀ (e : Expr) (s : St) (err : Panic), evalM env read e s = .error err →
-      ∃ c s0, read c s0 = .error err := by
-  intro e
-  induction e with
-  | const c => intro s err h; simp [evalM] at h
-  | input i => intro s err h; simp [evalM] at h
-  | call j =>
-    intro s err h
-    simp only [evalM] at h
-    cases hr : read j s with
-    | error e' => rw [hr] at h; injection h with h; subst h; exact ⟨j, s, hr⟩
-    | ok r => obtain ⟨w, hs1, s1⟩ := r; rw [hr] at h; cases h
-  | union a b iha ihb =>
-    intro s err h
-    simp only [evalM] at h
-    cases ha : evalM env read a s with
-    | error e' => rw [ha] at h; injection h with h; subst h; exact iha s _ ha
-    | ok r =>
-      obtain ⟨x, h1, s1⟩ := r
-      rw [ha] at h
-      simp only at h
-      cases hb : evalM env read b s1 with
-      | error e' => rw [hb] at h; injection h with h; subst h; exact ihb s1 _ hb
-      | ok r2 => obtain ⟨y, h2, s2⟩ := r2; rw [hb] at h; cases h
-  | inter a b iha ihb =>
-    intro s err h
-    simp only [evalM] at h
-    cases ha : evalM env read a s with
-    | error e' => rw [ha] at h; injection h with h; subst h; exact iha s _ ha
-    | ok r =>
-      obtain ⟨x, h1, s1⟩ := r
-      rw [ha] at h
-      simp only at h
-      cases hb : evalM env read b s1 with
-      | error e' => rw [hb] at h; injection h with h; subst h; exact ihb s1 _ hb
-      | ok r2 => obtain ⟨y, h2, s2⟩ := r2; rw [hb] at h; cases h
-  | ite i a b iha ihb =>
-    intro s err h
-    simp only [evalM] at h
-    split at h
-    · exact iha s err h
-    · exact ihb s err h
 
 /-- **c15_bounded.**  A run of the head loop that starts at iteration stamp `stamp` needs at
     most `MAX_ITERATIONS + 1 − iteration stamp` evaluations of the body (so at most
@@ -271,10 +222,6 @@ def flipRead : Nat → St → Res Fetched := fun c s =>
     { s with prov := if (s.prov.lookup c).isSome then s.prov else (c, 0) :: s.prov })
 
 def selfP : Prog := ⟨[⟨.fixpoint false, .call 0⟩]⟩
-
-def errOf {α : Type} : Res α → Option Panic
-  | .ok _ => none
-  | .error e => some e
 
 set_option maxRecDepth 20000 in
 example : errOf (executeMaybeIterate selfP (fun _ => 0) flipRead 0 false loopFuel
